@@ -72,9 +72,22 @@ pub fn compile(
     })
 }
 
+/// Escapes a piece of text so that it can be placed between the double quotes of a Scheme string
+/// literal and reads back as exactly that text
+pub(crate) fn string_literal(text: &str) -> String {
+    let mut escaped = String::with_capacity(text.len());
+    for c in text.chars() {
+        if c == '"' || c == '\\' {
+            escaped.push('\\');
+        }
+        escaped.push(c);
+    }
+    escaped
+}
+
 impl CompiledExpression {
     pub fn scheme<S: AsRef<str>>(&self, mdt: S) -> String {
-        let mdt = mdt.as_ref();
+        let mdt = string_literal(mdt.as_ref());
         format!(
             "(use-modules (lipe) (lipe find){})
 
